@@ -112,9 +112,11 @@ class Body:
         self.facts = facts
         self.raw = raw
         if not os.environ.get("VERIF_NONORM"):
-            from normalize import thread_flags, replace_none_is_take
+            from normalize import thread_flags, replace_none_is_take, lower_option_replace, lower_identity_calls
             thread_flags(raw, facts.types)
             replace_none_is_take(raw, facts.types)
+            lower_option_replace(raw, facts.types)
+            lower_identity_calls(raw, facts.types)
         self.path = raw["path"]
         self.dpath = raw["dpath"]
         self.name = raw.get("name", "")
